@@ -137,7 +137,7 @@ func VxRootRotationFault() {
 	b := vxNewBarrier(phys)
 	vxAssert("unseal ok", b.Unseal(ctx, root) == nil)
 	newRoot := vxBytes("newRoot", 32)
-	vxAssume(!vxBytesEq(newRoot, root))
+	same := vxBytesEq(newRoot, root) // rotating to the very same key bytes is allowed (and must stay harmless)
 	fail := vxChoose("failing call (4 = none)", 5)
 	if fail < 4 {
 		phys.failAt = phys.calls + fail
@@ -164,7 +164,7 @@ func VxRootRotationFault() {
 		vxAssert("after restart a currently valid root key (old or new) unseals", okNew)
 		vxAssert("new root key is only required when the rotation was reported successful", err == nil)
 	} else {
-		vxAssert("old root key only keeps working when the rotation was not completed", err != nil)
+		vxAssert("old root key only keeps working when the rotation was not completed", err != nil || same)
 	}
 	vxAssert("after restart the earlier record is readable", vxReadable(r, val))
 }
@@ -176,7 +176,7 @@ func VxRootRotationCrash() {
 	b := vxNewBarrier(phys)
 	vxAssert("unseal ok", b.Unseal(ctx, root) == nil)
 	newRoot := vxBytes("newRoot", 32)
-	vxAssume(!vxBytesEq(newRoot, root))
+	same := vxBytesEq(newRoot, root)
 	crash := vxChoose("crash after k writes (4 = no crash)", 5)
 	if crash < 4 {
 		phys.crashAt = phys.writes + crash
@@ -194,7 +194,13 @@ func VxRootRotationCrash() {
 	vxAssert("after a crash inside root rotation, the old or the new root key unseals", okOld || okNew)
 	vxAssert("and the earlier record is readable", vxReadable(r, val))
 	if crash == 4 {
-		vxAssert("completed rotation: the new root key is the valid one", okNew && !okOld)
+		vxAssert("completed rotation: the new root key is the valid one", (okNew && !okOld) || (same && okOld))
+		// the node keeps running after the rotation: a later keyring persist must still be under the valid root key
+		_, rerr := b.Rotate(ctx)
+		vxAssert("rotate after root rotation ok", rerr == nil)
+		r2 := vxNewBarrier(phys)
+		vxAssert("after a later keyring persist and a restart the new root key still unseals", r2.Unseal(ctx, newRoot) == nil)
+		vxAssert("and the earlier record is still readable", vxReadable(r2, val))
 	}
 }
 
